@@ -25,6 +25,9 @@ def run(ctx):
              "(release of waiting validators at session end, forced unstake after MaxJailedBlocks 3-8, unstaking time of ~3 blocks) and scripted sequences "
              "(jail -> unstake while jailed -> blocks -> unjail; jail beyond MaxJailedBlocks -> unjail; unstake -> mature -> stake again); then three session draws "
              "by the real NewSessionNodes against that keeper; the driver judges every selected node on its real record: in the index list, eligible, status staked")
+    ctx.rule("c33 (round c): every real generation runs under a 5 s watchdog (TIMEOUT => session-generation-did-not-terminate, the stream stops after that line); "
+             "the candidate slice handed out by the keeper is compared before/after (candidates-mutated); the second generation re-uses the same slice; the keeper stream runs with "
+             "the production validators-by-chain cache (sdk.NewCache(1200)) and regenerates each session after two other apps' sessions on the same (height, chain) (session-not-deterministic)")
     n = 40000 if ctx.thorough else 2500
     ctx.stream("sessions", "c33", DRIVER, n=n)
     ctx.stream("keeper", "c33", DRIVER, n=6000 if ctx.thorough else 900, args=["-mode", "keeper"])
